@@ -24,7 +24,7 @@ N_D = ("Trusted: TLC, the JSON projection in harness/model.py (a change of repre
 
 claim("C01", "model_checking", "Inv_Feasible/Inv_CompleteAfterN hold in every reachable state of the spec over all instances of the bounded family x filter compositions; every recorded dispatch of the real Dispatcher is the specification's step and the logged schedule is feasible. A TLAPS proof (264 obligations) establishes the feasibility/bookkeeping invariant of the dispatch step for arbitrary finite instances; the thorough tier adds an Apalache inductive-invariant run (3x3x3, symbolic durations).", N_D, T_D, "5/C01")
 claim("C02", "model_checking", "Tracking vectors = derive(schedule), forced (semi-active) starts and makespan checked by TLC on the spec and on every logged state; recorded histories replayed on fresh and reset dispatchers. Thorough tier adds the Apalache inductive invariant (bookkeeping clauses) for symbolic durations.", N_D, T_D, "5/C02")
-claim("C05", "model_checking", "Memoisation cache modelled as a state variable; TLC explores every query order; every real query result in every visited state is compared with the definitional operator.", N_D, T_D, "5/C05")
+claim("C05", "model_checking", "Memoisation cache modelled as a state variable; TLC explores every query order; every real query result in every visited state is compared with the definitional operator - also with the library's own observers subscribed, after dispatching rules were asked, and with arguments passed by keyword.", N_D, T_D, "5/C05")
 claim("C06", "model_checking", "One-step-ahead invariants (now' >= now, completed grows, end = makespan, filters keep now) on the spec; same predicates on consecutive logged states and on current_time()/completed_operations() read-outs.", N_D, T_D, "5/C06")
 claim("C07", "model_checking", "TLC: compositions of filters on every sub-list of the ready list in every reachable state are non-empty sub-lists; real filters compared as sequences with the specification's criteria in every visited state.", N_D, T_D, "5/C07")
 claim("C09", "model_checking", "Reject actions enabled exactly when the request is invalid and stutter; TLC-injected invalid requests (incl. look-alike operations that do not belong to the instance, steps after the end of an episode, machine ids beyond the current instance in the multi environment) replayed on the real code: exception <=> invalid, all projected state unchanged.", N_D, T_D, "5/C09")
@@ -41,7 +41,7 @@ claim("C18", "model_checking", "Env.tla: legal decisions, declared spaces and wh
 claim("C14", "model_checking", "Rebuild.tla: from_job_sequences as a function, model-checked for every non-flexible instance of the family and every tuple of per-machine permutations (accepted <=> acyclic, result feasible/complete/ordered); views, dict/JSON/Taillard round trips and schedule round trips of real objects compared with the definitions of JobShop.tla by the monitor; instance fingerprint unchanged in every event of every trace.", N_D + " Text encodings only up to abstract content.", T_D, "5/C14")
 claim("C15", "exploration", "Pairs of operations / scheduled operations / schedules / instances built independently from TLC-generated instances and histories; the monitor judges a==b against equality of the abstract content, symmetry, reflexivity, !=, hashes, transitivity on triples. A pure relation - the specification only contributes content equality, hence exploration level.", N_D, "TLC-generated instances/histories -> real objects compared pairwise -> TLA+ monitor (content equality)", "5/C15")
 claim("C19", "model_checking", "Generator.tla: generator objects over random streams, same seed => prefix-related outputs under every interleaving (TLC; the global-stream design is refuted); GeneratorIter.tla: __iter__/__next__/generate() as a state machine, a pass yields exactly the limit whatever was done before (the rewind-on-stop design is refuted), every call sequence up to the bound enumerated by TLC and replayed on real generators; GeneratorShape.tla: WellShaped(params, instance). TLC-chosen call interleavings executed on real generators over a grid of parameter sets; every generated instance, names, iteration counts and machine coverage judged by the monitor.", N_D + " Shape half: sampled generated instances (exploration of the random stream).", T_D, "5/C19")
-claim("C20", "model_checking", "Viz.tla: the frame naming scheme + file-name sort as a function, frame i of n loaded at position i for every n <= 260 (TLC; the plain string sort is refuted at n = 100); real charts read back bar by bar from matplotlib and compared with Bars(schedule) by the monitor; the real GIF pipeline run on histories of up to 105 (thorough 250) dispatches and the written file decoded frame by frame.", N_D + " matplotlib/imageio are black boxes (outputs judged).", T_D, "5/C20")
+claim("C20", "model_checking", "Viz.tla: the frame naming scheme + file-name sort as a function, frame i of n loaded at position i for every n <= 260 (TLC; the plain string sort is refuted at n = 100); real charts read back bar by bar from matplotlib and compared with Bars(schedule) by the monitor; the real GIF/video pipeline (history given, recorded by GanttChartCreator, or recorded by the library while a solver runs) on histories of up to 1001 dispatches, the written file decoded frame by frame: how many operations frame k shows and (GIF) a digest of which ones, against the harness' own dispatch record.", N_D + " matplotlib/imageio are black boxes (outputs judged).", T_D, "5/C20")
 
 
 def build(registered):
